@@ -32,8 +32,6 @@ RULE = (
 )
 ASSUMPTIONS = [
     "hash_includes / bound argument literals 'differ' when they are different ints, strs or int lists",
-    "task.options(...) views are not combined with hash_includes or wrapper layers (Task.options() does not carry "
-    "hash_includes over; the statement does not say whether it should)",
     "a module-variable namespace change is only applied when no namespace argument overrides it",
 ]
 MANIFEST = {"technique": "metamorphic relations over generated module files (Hypothesis)"}
@@ -112,13 +110,8 @@ def cases(draw, allow_async=False, indents=("module", "space")):
         view = ["partial", [draw(st.sampled_from(LITS))], {}]
     if mut == "call_options" and view[0] == "partial" and draw(st.booleans()):
         view = ["plain"]
-    if view[0] == "options" or mut == "call_options":
-        # see ASSUMPTIONS: options views are not combined with includes / wrappers
-        if mut.startswith("inc_") or mut == "wrap_arg":
-            view = ["plain"]
-        else:
-            P["includes"] = None
-            P["wrap"] = 0
+    # (options views ARE combined with hash_includes and wrapper layers: a task with call-time
+    # overrides is a task, and the statement makes no exception for it)
     return {"prog": P, "view": view, "mut": mut, "par": par}
 
 
